@@ -11,7 +11,7 @@ Proof. intros name x. unfold simple_size. destruct (attr_get name x); [destruct 
 
 Lemma term_size_ne : forall name t, term_size name t <> inl Ok.
 Proof.
-  intros name [vb | x | ms b vb]; simpl; try discriminate; [apply simple_size_ne |].
+  intros name [vb | x | ms b vb]; unfold term_size; try discriminate; [apply simple_size_ne |].
   destruct (np_size (margs_get name ms)); discriminate.
 Qed.
 
@@ -40,7 +40,7 @@ Proof.
   - inversion H. apply forallb_atoms in Ea. now rewrite flatten_atoms_list.
   - destruct l as [| x r]; [discriminate |]. destruct x; try discriminate.
     match type of H with (if ?c then _ else _) = _ => destruct c eqn:Ec; [| discriminate] end.
-    inversion H. rewrite flatten_list. now apply regular_rows_length.
+    injection H as H. rewrite flatten_list, <- H. now rewrite (regular_rows_length _ _ Ec).
 Qed.
 
 Lemma margs_set_readback : forall name ms n vals ms', Forall wf_simple ms ->
@@ -63,7 +63,7 @@ Qed.
 
 Lemma term_size_flat : forall name t n, is_intercept t = false -> term_size name t = inr n -> List.length (fl_term name t) = n.
 Proof.
-  intros name [vb | x | ms b vb] n Hi H; simpl in *; try discriminate; unfold fl_term; simpl.
+  intros name [vb | x | ms b vb] n Hi H; [discriminate | |]; unfold fl_term, term_size in *; cbn [is_intercept term_get] in *.
   - now apply simple_size_flat.
   - destruct (np_size (margs_get name ms)) eqn:E; [| discriminate]. inversion H; subst. now apply np_size_flat.
 Qed.
@@ -72,12 +72,13 @@ Lemma term_set_readback : forall name t n vals t', wf_term t -> is_intercept t =
   List.length vals = n -> atoms vals -> term_set name t (wrap n vals) = (Ok, t') ->
   fl_term name t' = vals /\ wf_term t'.
 Proof.
-  intros name [vb | x | ms b vb] n vals t' Hwf Hi Hn Hlen Hat H; simpl in *; try discriminate.
-  - destruct (attr_set name x (wrap n vals)) as [st x'] eqn:E. inversion H; subst.
-    destruct (attr_set_readback name x n vals x' Hwf Hn eq_refl Hat E) as [H1 H2]. split; auto.
-  - destruct (margs_set name (wrap n vals) ms) as [st ms'] eqn:E. inversion H; subst.
-    destruct (np_size (margs_get name ms)) eqn:En; [| discriminate]. inversion Hn; subst.
-    destruct (margs_set_readback name ms _ vals ms' Hwf En eq_refl Hat E) as [H1 H2]. split; auto.
+  intros name [vb | x | ms b vb] n vals t' Hwf Hi Hn Hlen Hat H; [discriminate | |];
+    unfold fl_term, term_size, term_set, wf_term in *; cbn [is_intercept term_get] in *.
+  - destruct (attr_set name x (wrap n vals)) as [st x'] eqn:E. injection H as Hst Ht. subst st t'.
+    destruct (attr_set_readback name x n vals x' Hwf Hn Hlen Hat E) as [H1 H2]. split; auto.
+  - destruct (margs_set name (wrap n vals) ms) as [st ms'] eqn:E. injection H as Hst Ht. subst st t'.
+    destruct (np_size (margs_get name ms)) as [k |] eqn:En; [| discriminate]. injection Hn as Hn. subst k.
+    destruct (margs_set_readback name ms n vals ms' Hwf En Hlen Hat E) as [H1 H2]. split; auto.
 Qed.
 
 (* ------------------------------------------------------------------ the term list / model level *)
@@ -143,6 +144,7 @@ Theorem gam_set_readback_partial : forall name v g st g',
 Proof.
   intros name v g st g' Hwf Hh Hp H Hst. subst st. unfold gam_set, gam_has_terms in *.
   destruct (g_terms g) as [[| t ts] |] eqn:Et; try discriminate.
+  unfold gam_size in H. rewrite Hp in H. fold (tl_set name v (t :: ts)) in H.
   destruct (tl_set name v (t :: ts)) as [st1 ts1] eqn:E. inversion H; subst. clear H.
   destruct (tl_set_readback name v (t :: ts) ts1 Hwf E) as [H1 H2].
   exists (t :: ts). unfold gam_get. simpl. rewrite Hp.
